@@ -619,7 +619,9 @@ public:
     {
         invariants();
 
-        return compare(theString.c_str());
+        // Use the length of the other string, which may
+        // contain null characters.
+        return compare(0, length(), theString.c_str(), theString.length());
     }
 
     int
